@@ -3,7 +3,7 @@
    [build_graph K keqb kept ss] is the model of newGraph with KeptNodes = kept (None: untrimmed),
    [new_graph] the graph that is reported; EVERY kept set is covered, hence also the heuristic
    survivor choice of graphical reports. *)
-From PV Require Import M_Graph S_Graph M_Report L_Graph L_Report L_Cutoff.
+From PV Require Import M_Graph S_Graph M_Report L_Graph L_Report L_Cutoff L_Dropped.
 Open Scope Z_scope.
 
 Definition key_eq (K : Type) (keqb : K -> K -> bool) : Prop := forall a b, keqb a b = true <-> a = b.
@@ -92,6 +92,15 @@ Theorem shown_edge_not_below_cutoff : forall o pr e,
   In e (g_edges (t_g (new_trimmed_text o pr))) -> (abs64 (e_w e) <? o_edgecutoff o) = false.
 Proof. exact shown_edge_not_below_cutoff_lemma. Qed.
 Print Assumptions shown_edge_not_below_cutoff.
+
+(* the header's "Dropped N nodes (cum <= X)": the entries the cutoff pass leaves ("orig", the
+   figure "Showing top k nodes out of ..." counts from) plus the entries it reports as dropped are
+   the entries of the untrimmed graph -- nothing is dropped uncounted, nothing is counted twice *)
+Theorem dropped_nodes_add_up : forall o pr,
+  t_orig (new_trimmed_text o pr) + t_dropped_nodes (new_trimmed_text o pr) =
+  nlen (report_graph o (rebuild o pr) None).
+Proof. exact dropped_nodes_add_up_lemma. Qed.
+Print Assumptions dropped_nodes_add_up.
 
 (* "the entries removed are exactly those below the cutoff or outside the top N": full statement.
    Proved above: what is shown is unchanged ([text_report_nodes_unchanged]); the exact identity of
